@@ -45,12 +45,24 @@ Definition model (i : input) : observed :=
 (* The property, on what the implementation did (the model is not consulted):
    - no operation changes a package variable, a caller-supplied object or a
      storage-owned object (changes of the instance's own fields are its business);
-   - every probe behaves the same whether or not the other groups were constructed / used;
+   - every probe behaves the same whether or not the other groups were constructed / used, and a request
+     with per-request data is answered with its own data (not with data an earlier request - of this or
+     an earlier run in the process - left behind in some shared place);
    - the race detector reports nothing. *)
+(* a request that carries per-request data (a request on a handler value, a request of any class to a provider) is
+   answered with ITS OWN data: r is part of the input, the expected value is not taken from the model *)
+Definition own_answer (p : nat * op) (res : list val) : bool :=
+  match snd p with
+  | ProvAns _ _ _ r | HandlerReq _ _ _ r => list_eqb Nat.eqb res [S r]
+  | _ => true
+  end.
+Definition own_answers (probes : list (nat * op)) (results : list (list val)) : bool :=
+  forallb (fun pr => own_answer (fst pr) (snd pr)) (combine probes results).
+
 Definition spec (i : input) (o : observed) : bool :=
   match i, o with
   | ISnap _ _, OChanged ch => forallb (fun p => negb (is_shared_state (fst p))) ch
-  | IOrder _ _ _, OOrder a t => list_eqb (list_eqb Nat.eqb) a t
+  | IOrder _ _ probes, OOrder a t => list_eqb (list_eqb Nat.eqb) a t && own_answers probes t
   | IRace _, ORace n => n =? 0
   | _, _ => false
   end.
@@ -86,7 +98,7 @@ Definition op_class (o : op) : nat :=
   | NewProvider _ _ [] => 1 | NewProvider _ _ _ => 2 | NewLegacyServer _ _ => 3
   | NewRPOIDC _ _ _ _ => 4 | NewRPOAuth _ _ _ => 5 | NewRS _ _ _ _ => 6 | NewTE _ _ _ _ => 7 | NewKeySet _ _ _ => 8
   | ProvReq _ _ _ => 9 | DevGetAudience _ => 10 | RPCall _ _ _ => 11 | RSIntrospect _ _ => 12
-  | TEExchange _ _ => 13 | KSVerify _ _ => 14 | ClientCall _ _ => 15 | HandlerReq _ _ _ _ => 16 | FindKey _ => 17 | ClientReq _ _ _ _ _ => 18 | HelperCall _ _ => 19
+  | TEExchange _ _ => 13 | KSVerify _ _ => 14 | ClientCall _ _ => 15 | HandlerReq _ _ _ _ => 16 | FindKey _ => 17 | ClientReq _ _ _ _ _ => 18 | HelperCall _ _ => 19 | ProvAns _ _ _ _ => 20
   end.
 Definition path (i : input) (o : observed) : nat :=
   match i with
